@@ -57,6 +57,10 @@ func main() {
 		workerMain(*worker)
 		return
 	}
+	if os.Getenv("VCHECK_C19_CHILD") != "" {
+		c19ChildMain()
+		return
+	}
 	if os.Getenv("VCHECK_C06_CHILD") != "" {
 		c06ChildMain()
 		return
